@@ -13,6 +13,7 @@ import Hw.Topo.HistoryLemmas
 import Hw.Topo.InsertWF
 import Hw.Topo.InsertOrder
 import Hw.Topo.InsertOrd2
+import Hw.Topo.InsertSort
 namespace Hw.Props.C02
 open Hw.Topo Hw.Topo.Hist
 
@@ -152,6 +153,14 @@ theorem C02_insert_keeps_order (t : T) (obj : IObj) (hL : Lam t) (hO : Ord t) (h
     (∀ t', ins obj t = .inserted t' → Ord t') ∧ (∀ t' m, ins obj t = .merged t' m → Ord t') := by
   have h := ins_ordered t obj hL hO hs hkc hne
   refine ⟨fun t' e => ?_, fun t' m e => ?_⟩ <;> rw [e] at h <;> exact h.1
+
+open Hw.Topo.Ins in
+/-- the re-sorting step that `hwloc_topology_insert_group_object`, `fixup_sets` and the level merging run after changing
+complete cpusets (`hwloc__reorder_children_if_needed`, literal insertion-sort model) returns, for EVERY children list, a
+permutation of it in which no child starts below an earlier one (CPU-less children last) — whichever of its two branches runs -/
+theorem C02_reorder_sorts (kids : List T) :
+    (reorderIfNeeded kids).Pairwise le ∧ (reorderIfNeeded kids).Perm kids ∧ (reorder kids).Pairwise le ∧ (reorder kids).Perm kids :=
+  ⟨(reorderIfNeeded_sorted kids).1, (reorderIfNeeded_sorted kids).2, (reorder_sorted kids).1, (reorder_sorted kids).2⟩
 
 open Hw.Topo.Ins in
 /-- the same through the public entry point `hwloc_topology_insert_group_object` (set clipping, cpuset from the nodeset,
